@@ -170,6 +170,10 @@ structure St where
   resolved : List ((String × Nat) × Res) := []
   /-- (node, chain, height) ↦ commitment seen in an earlier dump. -/
   hist : List ((String × Chain × Nat) × Commit) := []
+  /-- signer's state right before each signature still in flight (per direction). -/
+  snapAB : List NDump := []
+  snapBA : List NDump := []
+  agreeChecks : Nat := 0
   -- statistics
   signs : Nat := 0
   sigsVerified : Nat := 0
@@ -266,11 +270,6 @@ def nodeOfDump (cfg : Cfg) (d : NDump) : Node :=
     logL := { entries := d.logL, logIndex := d.ll, htlcCounter := d.lc, modified := d.lmod }
     logR := { entries := d.logR, logIndex := d.rl, htlcCounter := d.rc, modified := d.rmod }
     chainL := chainOfDump (d.chainOf .loc), chainR := chainOfDump (d.chainOf .rem) }
-
-def mirrorCfg (c : Cfg) : Cfg :=
-  { c with initiator := !c.initiator, dustL := c.dustR, dustR := c.dustL, resL := c.resR, resR := c.resL,
-           minL := c.minR, minR := c.minL, maxPendL := c.maxPendR, maxPendR := c.maxPendL,
-           maxAccL := c.maxAccR, maxAccR := c.maxAccL }
 
 /-! ### monitors on the implementation's dumps -/
 
@@ -404,7 +403,7 @@ def flush (s : St) : IO St := do
   if s.dirty.isEmpty then return s
   if !s.inited then
     if s.dA.seen && s.dB.seen then
-      s := { s with inited := true, mA := nodeOfDump s.cfgA s.dA, mB := nodeOfDump (mirrorCfg s.cfgA) s.dB }
+      s := { s with inited := true, mA := nodeOfDump s.cfgA s.dA, mB := nodeOfDump (s.cfgA.mirror) s.dB }
     else return s
   for node in s.dirty.eraseDups do
     let d := if node == "A" then s.dA else s.dB
@@ -465,7 +464,9 @@ def opLine (s : St) (node : String) (ws : List String) : IO St := do
     let peer := if node == "A" then "B" else "A"
     if op == "settle" then s := { s with resolved := ((peer, idx), .settled) :: s.resolved }
     if op == "fail" || op == "malformed" then s := { s with resolved := ((peer, idx), .failed) :: s.resolved }
-    if op == "sign" then s := { s with signs := s.signs + 1 }
+    if op == "sign" then
+      s := { s with signs := s.signs + 1 }
+      s := if node == "A" then { s with snapAB := s.snapAB ++ [s.dA] } else { s with snapBA := s.snapBA ++ [s.dB] }
   if !s.modelOk then return s
   let chk (s : St) (e : Err) (n' : Node) (msg : Option Msg) : IO St := do
     if e.toString != impl then
@@ -527,6 +528,32 @@ def deliverLine (s : St) (ws : List String) : IO St := do
   s := { s with errKinds := bump s.errKinds ("recv_" ++ impl) }
   -- monitor: honest peers never reject each other's signatures or updates
   if kind == "commitsig" then
+    -- hypothesis of `honest_sig_verifies_partial`: LogAgreement(signer when signing, receiver now),
+    -- evaluated on the implementation's own states
+    let snaps := if dir == "AB" then s.snapAB else s.snapBA
+    if let snap :: rest := snaps then
+      s := if dir == "AB" then { s with snapAB := rest } else { s with snapBA := rest }
+      let (cfgS, cfgR) := if dir == "AB" then (s.cfgA, s.cfgA.mirror) else (s.cfgA.mirror, s.cfgA)
+      let recvDump := if dir == "AB" then s.dB else s.dA
+      s := { s with agreeChecks := s.agreeChecks + 1 }
+      if !agreeCheck (nodeOfDump cfgS snap) (nodeOfDump cfgR recvDump) then
+        let a := nodeOfDump cfgS snap
+        let b := nodeOfDump cfgR recvDump
+        let vLa := viewOf a.logL a.logL.logIndex
+        let vRa := viewOf a.logR a.chainL.tail.theirMsg
+        let vLb := viewOf b.logL b.chainR.tail.ourMsg
+        let vRb := viewOf b.logR b.logR.logIndex
+        let det := [decide (b.cfg = a.cfg.mirror), decide (b.chainL.tip.height = a.chainR.tip.height),
+          decide (b.chainL.tip.our = a.chainR.tip.their), decide (b.chainL.tip.their = a.chainR.tip.our),
+          decide (b.chainL.tip.fee = a.chainR.tip.fee), decide (b.chainL.tip.feePerKw = a.chainR.tip.feePerKw),
+          decide ((liveAdds vLa (resolutions vRa)).map (absE .rem) = (liveAdds vRb (resolutions vLb)).map (absE .loc)),
+          decide ((liveAdds vRa (resolutions vLa)).map (absE .rem) = (liveAdds vLb (resolutions vRb)).map (absE .loc)),
+          decide ((newRes .rem vLa).map (absE .rem) = (newRes .loc vRb).map (absE .loc)),
+          decide ((newRes .rem vRa).map (absE .rem) = (newRes .loc vLb).map (absE .loc)),
+          decide (viewFeePerKw (if a.cfg.initiator then vLa else vRa) a.chainR.tip.feePerKw =
+                  viewFeePerKw (if a.cfg.initiator then vRb else vLb) b.chainL.tip.feePerKw)]
+        s ← mismatch s s!"{dir}: LogAgreement (hypothesis of honest_sig_verifies_partial) does not hold at this signature delivery {det}"
+        s := { s with modelOk := true }
     if impl == "invalidSig" then
       s ← monitor s "sig-verifies" s!"{dir}: commitment signature of an honest peer rejected"
     else if impl == "ok" then s := { s with sigsVerified := s.sigsVerified + 1 }
@@ -581,7 +608,7 @@ def step (s : St) (line : String) : IO St := do
     let s := { s with caseId := id, cases := s.cases + 1, inited := false, modelOk := true, caseMismatch := 0,
                       caseMonitor := 0, cap := cfgA.capacity, anchors := cfgA.anchors, cfgA := cfgA,
                       qab := [], qba := [], dA := {}, dB := {}, cur := none, dirty := [], qlenAB := 0, qlenBA := 0,
-                      dead := false, resolved := [], hist := [] }
+                      dead := false, resolved := [], hist := [], snapAB := [], snapBA := [] }
     if s.samples < 4 then
       IO.println s!"SAMPLE {line}"
       return { s with samples := s.samples + 1 }
@@ -630,6 +657,7 @@ def main : IO Unit := do
   IO.println s!"STAT signatures_made={s.signs}"
   IO.println s!"STAT signatures_verified={s.sigsVerified}"
   IO.println s!"STAT mirror_signed_checks={s.mirrorSigned}"
+  IO.println s!"STAT log_agreement_checks={s.agreeChecks}"
   IO.println s!"STAT idle_mirror_checks={s.idleChecks}"
   IO.println s!"STAT dust_htlcs_on_commitments={s.dustHtlcs}"
   IO.println s!"STAT nondust_htlcs_on_commitments={s.nondustHtlcs}"
